@@ -166,7 +166,8 @@ Lemma total_apply_writes U s o :
   total U (apply_writes s o) = total U s + sum_dbal (ro_writes o).
 Proof.
   intros Hnd Hin. unfold apply_writes.
-  erewrite total_acc; [now apply total_fold_writes|reflexivity].
+  transitivity (total U (fold_left apply_write (ro_writes o) s)); [apply total_acc; reflexivity|].
+  now apply total_fold_writes.
 Qed.
 
 Lemma refund_apply_writes s o : st_refund (apply_writes s o) = ro_refund o.
@@ -211,12 +212,14 @@ Lemma kill_fold_total U l s b :
   NoDup U -> (forall a, In a l -> In a U) ->
   total U (fst (fold_left kill l (s, b))) = total U s - (snd (fold_left kill l (s, b)) - b).
 Proof.
-  intros Hnd. revert s b. induction l as [|a l IH]; intros s b Hin; cbn [fold_left fst snd].
-  - lia.
-  - unfold kill at 2 4. cbn [fst snd].
+  intros Hnd. revert s b. induction l as [|a l IH]; intros s b Hin; cbn [fold_left].
+  - cbn [fst snd]. lia.
+  - change (kill (s, b) a) with (upd s a empty_account, b + bal s a).
     rewrite IH by (intros; apply Hin; right; assumption).
     rewrite (total_delta U s (upd s a empty_account) a Hnd).
-    + unfold bal at 2. rewrite get_upd_eq. cbn [a_bal empty_account]. lia.
+    + replace (bal (upd s a empty_account) a) with 0
+        by (unfold bal; rewrite get_upd_eq; reflexivity).
+      lia.
     + apply Hin; left; reflexivity.
     + intros c Hc. unfold bal. now rewrite get_upd_neq.
 Qed.
@@ -226,7 +229,7 @@ Lemma total_finalise U s :
   total U (fst (finalise s)) = total U s - snd (finalise s).
 Proof.
   intros Hnd Hin. unfold finalise. cbn [fst snd].
-  erewrite total_acc; [|reflexivity].
+  transitivity (total U (fst (fold_left kill (st_dead s) (s, 0)))); [apply total_acc; reflexivity|].
   rewrite (kill_fold_total U _ s 0 Hnd Hin). lia.
 Qed.
 
@@ -236,8 +239,9 @@ Proof. intros H. unfold finalise. rewrite H. reflexivity. Qed.
 Lemma kill_fold_acc_notin l s b a :
   ~ In a l -> get (fst (fold_left kill l (s, b))) a = get s a.
 Proof.
-  revert s b. induction l as [|c l IH]; intros s b Hn; cbn [fold_left fst]; [reflexivity|].
-  unfold kill at 2. cbn [fst snd]. rewrite IH by (intros H; apply Hn; right; exact H).
+  revert s b. induction l as [|c l IH]; intros s b Hn; cbn [fold_left]; [reflexivity|].
+  change (kill (s, b) c) with (upd s c empty_account, b + bal s c).
+  rewrite IH by (intros H; apply Hn; right; exact H).
   apply get_upd_neq. intros ->. apply Hn. left; reflexivity.
 Qed.
 
